@@ -39,4 +39,8 @@ def main() -> int:
 
 
 if __name__ == "__main__":
-    sys.exit(main())
+    code = main()
+    sys.stdout.flush()
+    sys.stderr.flush()
+    # a deadlocked (non-daemon) agent thread left behind by the code under test must not keep the check alive
+    os._exit(code)
